@@ -44,6 +44,7 @@ type half struct {
 	reset    bool // connection reset: reader and writer fail at once
 	window   int
 	Latency  int64
+	flight   [][]byte // segments written and not yet delivered, oldest first
 	inflight int
 }
 
@@ -217,7 +218,14 @@ func (c *TCPConn) Write(b []byte) (int, error) {
 	if c.out.Latency > 0 {
 		h := c.out
 		h.inflight += len(data)
-		vrt.AddTimer(h.Latency, func() { h.inflight -= len(data); h.buf = append(h.buf, data...) })
+		// a byte stream never reorders: whichever delivery timer fires first delivers the oldest segment in flight
+		h.flight = append(h.flight, data)
+		vrt.AddTimer(h.Latency, func() {
+			d := h.flight[0]
+			h.flight = h.flight[1:]
+			h.inflight -= len(d)
+			h.buf = append(h.buf, d...)
+		})
 	} else {
 		c.out.buf = append(c.out.buf, data...)
 	}
